@@ -266,7 +266,8 @@ class ModuleFinder:
                         if init_module.exists():
                             # Stubs package.
                             return Package(real_module_name, init_module, None)
-                        namespace_dirs.append(abs_path)
+                        if abs_path.is_dir():
+                            namespace_dirs.append(abs_path)
 
         if namespace_dirs:
             return NamespacePackage(module_name, namespace_dirs)
